@@ -56,11 +56,12 @@ structure Made where
   ok : Bool                         -- `false`: MetaException (unknown type, or a misspelt referential keyword)
 
 /-- `MetaClass.new` up to the batch relate: defaults are computed (and ids drawn) BEFORE any argument is
-    applied, so an explicitly supplied id still consumes a generator value -/
+    applied, so an explicitly supplied id still consumes a generator value; keyword names are resolved to the
+    declared names first (`Attr.newItems`) -/
 def newOne (stream : Nat → Int) (call : Call) (pos : Nat) : Made × Nat :=
   let (defs, pos', dok) := computeDefaults (typedDefault stream) call.cls call.cls.attrs pos
   if dok then
-    let (acc, res) := assignAll call.cls ⟨[], []⟩ (defs ++ call.cls.names.zip call.args ++ call.kwargs)
+    let (acc, res) := assignAll call.cls ⟨[], []⟩ (newItems call.cls defs call.args call.kwargs)
     ({ dict := acc.dict, defs := defs, ok := decide (res = .ok) }, pos')
   else
     let (acc, _) := assignAll call.cls ⟨[], []⟩ defs
